@@ -86,15 +86,24 @@ func loadSession(prop string) (*Session, error) {
 		return nil, err
 	}
 	s := &Session{worlds: map[string]*World{}, ss: map[string]*SpecSet{}, srcs: srcs}
+	// a module is loaded (with all its contract files, which may refer to each
+	// other's spec functions) when one of its contract files mentions prop
+	wanted := map[string]bool{}
+	for _, c := range srcs {
+		if prop == "" {
+			wanted[c.modDir] = true
+			continue
+		}
+		b, _ := os.ReadFile(c.path)
+		if mentionsProp(string(b), prop) {
+			wanted[c.modDir] = true
+		}
+	}
 	byMod := map[string][]*contractSrc{}
 	for _, c := range srcs {
-		if prop != "" {
-			b, _ := os.ReadFile(c.path)
-			if !mentionsProp(string(b), prop) {
-				continue
-			}
+		if wanted[c.modDir] {
+			byMod[c.modDir] = append(byMod[c.modDir], c)
 		}
-		byMod[c.modDir] = append(byMod[c.modDir], c)
 	}
 	for mod, cs := range byMod {
 		var pats []string
@@ -227,6 +236,34 @@ func main() {
 		os.Exit(cmdInspect(os.Args[1], os.Args[2:]))
 	case "baseline":
 		os.Exit(cmdBaseline(os.Args[2:]))
+	case "ws":
+		// govc ws <funcsuffix>: print the syntactic write set of a function
+		sess, err := loadSession("")
+		if err != nil {
+			fmt.Println(err)
+			os.Exit(2)
+		}
+		for mod, w := range sess.worlds {
+			for _, k := range sortedKeys(w.Funcs) {
+				if strings.HasSuffix(k, os.Args[2]) {
+					e := newExec(w, sess.ss[mod], w.Funcs[k], &FuncSpec{})
+					ws := e.writeSet(w.Funcs[k])
+					fmt.Println(k, sortedKeys(ws))
+					if ws[wsAll] {
+						for _, b := range w.Funcs[k].Blocks {
+							for _, in := range b.Instrs {
+								x := map[string]bool{}
+								e.instrWrites(w.Funcs[k], in, x)
+								if x[wsAll] {
+									fmt.Println("   ALL from:", in, "at", w.pos(in.Pos()))
+								}
+							}
+						}
+					}
+				}
+			}
+		}
+		os.Exit(0)
 	case "harness":
 		// govc harness <prop>: run the replay harnesses of a property
 		var defs []harnessDef
